@@ -2,9 +2,15 @@
    Only statements, each closed by [exact <lemma>] and followed by Print Assumptions.
    Model: KabschModel.v ([rotation_of fixed d cov]: R = V U^T from the SVD oracle of the cross covariance, with the
    determinant correction iff [fixed] = true — the repaired code).  The SVD contract [svd_contract] (LsProofs.v) is an
-   explicit premise.  [Re d U V e] = V diag(e) U^T;  [rcost d N S T Q] = sum_{n<N} |Q S_n - T_n|^2 for centred pairs. *)
+   explicit premise.  [Re d U V e] = V diag(e) U^T;  [rcost d N S T Q] = sum_{n<N} |Q S_n - T_n|^2 for centred pairs.
+   [e_star d U V] = the sign pattern of the repaired code: [elast d] (last direction flipped) iff det(V U^T) < 0, else all ones.
+   [is_orth d Q]: the columns of the d x d block of Q are orthonormal.  For a list of pairs (KabschLists.v):
+   [p_src pairs n i] / [p_tgt pairs n i] = coordinate i of the n-th source / target, [Sc ps pairs] / [Tc ps pairs] = the same
+   minus the model's means, [fcost d pairs R t] = sum_n sum_{i<d} (sum_j R i j s_n j + t i - t_n i)^2 (cost of the rigid
+   motion (R, t) on the listed pairs themselves), [scale_pairs c pairs] = every coordinate of every point times c
+   (PreconditionedPointSet(points, c) on both sets), [rank_ge_dm1 d N S] = some S_n <> 0 (d = 2) / some S_n x S_m <> 0 (d = 3). *)
 From Coq Require Import Reals List Arith Lia Lra Bool Permutation.
-From Romea Require Import Num NumR LinAlgBModel LinAlgBProofs LsProofs KabschModel KabschProofs.
+From Romea Require Import Num NumR LinAlgBModel LinAlgBProofs LsProofs KabschModel KabschProofs KabschProper KabschLists KabschPrecond KabschExamples.
 Import ListNotations.
 Local Open Scope R_scope.
 
@@ -45,15 +51,124 @@ Theorem C04_kabsch_least_squares_optimal_orthogonal :
 Proof. exact kabsch_optimal. Qed.
 Print Assumptions C04_kabsch_least_squares_optimal_orthogonal.
 
-(* Optimality among PROPER rotations when the unconstrained optimum is a reflection with sigma_last > 0 (Umeyama's case for
-   noisy data) is not proved: it rests on the oracle's comparison with an independent Kabsch/Umeyama solution. *)
-Theorem C04_kabsch_least_squares_optimal_partial :
+(* the trace of Q C for Q = V diag(e) U^T *)
+Theorem C04_kabsch_trace_of_V_diag_e_Ut :
   forall d (U V : nat -> nat -> R) (sg : nat -> R),
   (forall a b, (a < d)%nat -> (b < d)%nat -> Rsum d (fun l => U l a * U l b) = delta a b) ->
   (forall a b, (a < d)%nat -> (b < d)%nat -> Rsum d (fun l => V l a * V l b) = delta a b) ->
   forall e, trQC d U V sg (Re d U V e) = Rsum d (fun a => sg a * e a).
 Proof. exact (fun d U V sg HU HV e => trace_Re d U V sg HU HV e). Qed.
-Print Assumptions C04_kabsch_least_squares_optimal_partial.
+Print Assumptions C04_kabsch_trace_of_V_diag_e_Ut.
+
+(* (a) least-squares optimality among PROPER rotations, noisy data included (Umeyama's case: the unconstrained optimum is a
+   reflection and sigma_last > 0): for U, V orthogonal, sigma non-negative and non-increasing (the order the SVD contract
+   gives), the matrix V diag(e_star) U^T of the repaired code is a proper rotation and no proper rotation has a smaller sum
+   of squared residuals.  d = 2 and d = 3. *)
+Theorem C04_kabsch_least_squares_optimal_proper :
+  forall d N (S T U V : nat -> nat -> R) (sg : nat -> R), (d = 2 \/ d = 3)%nat ->
+  (forall a b, (a < d)%nat -> (b < d)%nat -> Rsum d (fun l => U l a * U l b) = delta a b) ->
+  (forall i j, (i < d)%nat -> (j < d)%nat -> Rsum d (fun a => U i a * U j a) = delta i j) ->
+  (forall a b, (a < d)%nat -> (b < d)%nat -> Rsum d (fun l => V l a * V l b) = delta a b) ->
+  (forall i j, (i < d)%nat -> (j < d)%nat -> Rsum d (fun a => V i a * V j a) = delta i j) ->
+  (forall a, (a < d)%nat -> 0 <= sg a) ->
+  (forall a b, (a <= b)%nat -> (b < d)%nat -> sg b <= sg a) ->
+  (forall j i, (j < d)%nat -> (i < d)%nat -> Ccov N S T j i = Cm d U V sg j i) ->
+  fdet ROps d (Re d U V (e_star d U V)) = 1 /\
+  forall Q, is_orth d Q -> fdet ROps d Q = 1 -> rcost d N S T (Re d U V (e_star d U V)) <= rcost d N S T Q.
+Proof.
+  exact (fun d N S T U V sg Hd HUtU HUUt HVtV HVVt Hsg Hord HC =>
+           conj (Re_star_proper d U V Hd HUtU HVtV)
+                (kabsch_optimal_proper d N S T U V sg Hd HUtU HUUt HVtV HVVt Hsg Hord HC)).
+Qed.
+Print Assumptions C04_kabsch_least_squares_optimal_proper.
+
+(* the same with the determinants explicit: all ones when det V det U = +1, last direction flipped when it is -1 *)
+Theorem C04_kabsch_least_squares_optimal_proper_by_determinant :
+  forall d N (S T U V : nat -> nat -> R) (sg : nat -> R), (d = 2 \/ d = 3)%nat ->
+  (forall a b, (a < d)%nat -> (b < d)%nat -> Rsum d (fun l => U l a * U l b) = delta a b) ->
+  (forall i j, (i < d)%nat -> (j < d)%nat -> Rsum d (fun a => U i a * U j a) = delta i j) ->
+  (forall a b, (a < d)%nat -> (b < d)%nat -> Rsum d (fun l => V l a * V l b) = delta a b) ->
+  (forall i j, (i < d)%nat -> (j < d)%nat -> Rsum d (fun a => V i a * V j a) = delta i j) ->
+  (forall a, (a < d)%nat -> 0 <= sg a) ->
+  (forall a b, (a <= b)%nat -> (b < d)%nat -> sg b <= sg a) ->
+  (forall j i, (j < d)%nat -> (i < d)%nat -> Ccov N S T j i = Cm d U V sg j i) ->
+  forall Q, is_orth d Q -> fdet ROps d Q = 1 ->
+  (fdet ROps d V * fdet ROps d U = 1 -> rcost d N S T (Re d U V (fun _ => 1)) <= rcost d N S T Q) /\
+  (fdet ROps d V * fdet ROps d U = -1 -> rcost d N S T (Re d U V (elast d)) <= rcost d N S T Q).
+Proof.
+  exact (fun d N S T U V sg Hd HUtU HUUt HVtV HVVt Hsg Hord HC Q HQ HdQ =>
+           conj (fun Hp => kabsch_optimal_proper_pos d N S T U V sg Hd HUtU HUUt HVtV HVVt Hsg Hord HC Q Hp HQ HdQ)
+                (fun Hn => kabsch_optimal_proper_neg d N S T U V sg Hd HUtU HUUt HVtV HVVt Hsg Hord HC Q Hn HQ HdQ)).
+Qed.
+Print Assumptions C04_kabsch_least_squares_optimal_proper_by_determinant.
+
+(* the algebraic core: for an improper orthogonal M (det = -1) and weights s_0 >= ... >= s_{d-1} >= 0,
+   sum_a s_a M_aa <= s_0 + ... + s_{d-2} - s_{d-1}   (3x3: trace M <= 1, from the cofactor identities of O(3)) *)
+Theorem C04_kabsch_improper_weighted_trace :
+  forall d (M : nat -> nat -> R) (sg : nat -> R), (d = 2 \/ d = 3)%nat ->
+  is_orth d M -> fdet ROps d M = -1 ->
+  (forall a, (a < d)%nat -> 0 <= sg a) -> (forall a b, (a <= b)%nat -> (b < d)%nat -> sg b <= sg a) ->
+  Rsum d (fun a => sg a * M a a) <= Rsum d (fun a => sg a * elast d a).
+Proof. exact improper_diag_bound. Qed.
+Print Assumptions C04_kabsch_improper_weighted_trace.
+
+(* the model's rotation block (repaired code) is exactly V diag(e_star) U^T ... *)
+Theorem C04_kabsch_model_rotation_is_V_diag_estar_Ut :
+  forall svd_of d cov, (d = 2 \/ d = 3)%nat ->
+    let '(U, _, V) := svd_of d cov in
+    forall i j, (i < d)%nat -> (j < d)%nat ->
+      mget ROps (rotation_of ROps svd_of true d cov) i j
+      = Re d (mget ROps U) (mget ROps V) (e_star d (mget ROps U) (mget ROps V)) i j.
+Proof. exact rotation_is_Re_star. Qed.
+Print Assumptions C04_kabsch_model_rotation_is_V_diag_estar_Ut.
+
+(* ... hence least-squares optimal among all proper rotations, for any SVD the oracle returns within its contract and any
+   N centred pairs whose cross covariance is the matrix handed to the oracle *)
+Theorem C04_kabsch_rotation_optimal_among_proper_rotations :
+  forall svd_of d cov N (S T : nat -> nat -> R), (d = 2 \/ d = 3)%nat ->
+  svd_contract d cov (svd_of d cov) ->
+  (forall j i, (j < d)%nat -> (i < d)%nat -> Ccov N S T j i = mget ROps cov j i) ->
+  forall Q, is_orth d Q -> fdet ROps d Q = 1 ->
+  rcost d N S T (mget ROps (rotation_of ROps svd_of true d cov)) <= rcost d N S T Q.
+Proof. exact rotation_of_optimal_proper. Qed.
+Print Assumptions C04_kabsch_rotation_optimal_among_proper_rotations.
+
+(* (c) the list sums of the model are the finite sums of the function view: the matrix handed to the SVD by
+   [estimate_pairs] is the cross covariance of the pairs centred on the model's means, and these means centre the pairs *)
+Theorem C04_kabsch_cross_cov_is_finite_sum :
+  forall d ps (pairs : list (list R * list R)),
+  let sm := mean_of ROps ps (map fst pairs) in let tm := mean_of ROps ps (map snd pairs) in
+  (forall i j, (i < d)%nat -> (j < d)%nat ->
+     mget ROps (cross_cov ROps d pairs sm tm) i j = Ccov (length pairs) (Sc ps pairs) (Tc ps pairs) i j) /\
+  (forall n i, Sc ps pairs n i = p_src pairs n i - vget ROps sm i) /\
+  (forall n i, Tc ps pairs n i = p_tgt pairs n i - vget ROps tm i) /\
+  (pairs <> [] -> forall i, (i < ps)%nat ->
+     Rsum (length pairs) (fun n => Sc ps pairs n i) = 0 /\ Rsum (length pairs) (fun n => Tc ps pairs n i) = 0).
+Proof.
+  exact (fun d ps pairs => conj (cross_cov_get d ps pairs)
+           (conj (fun n i => eq_refl) (conj (fun n i => eq_refl)
+              (fun Hne i Hi => conj (Sc_centred ps pairs i Hi Hne) (Tc_centred ps pairs i Hi Hne))))).
+Qed.
+Print Assumptions C04_kabsch_cross_cov_is_finite_sum.
+
+(* the output of [estimate_pairs] itself (both estimate_ overloads reduce to it): its linear part is a proper rotation and
+   the rigid motion x -> R x + t it returns has the smallest sum of squared residuals on the listed pairs among ALL proper
+   rigid motions x -> Q x + tau (rotation and translation), for any SVD within the contract — noisy data included *)
+Theorem C04_kabsch_estimate_is_optimal_proper_rotation :
+  forall svd_of d ps (pairs : list (list R * list R)),
+  (d = 2 \/ d = 3)%nat -> (d <= ps)%nat -> pairs <> [] ->
+  let sm := mean_of ROps ps (map fst pairs) in let tm := mean_of ROps ps (map snd pairs) in
+  let cov := cross_cov ROps d pairs sm tm in
+  svd_contract d cov (svd_of d cov) ->
+  let H := estimate_pairs ROps svd_of true d ps pairs in
+  (is_orth d (mget ROps H) /\ fdet ROps d (mget ROps H) = 1) /\
+  forall Q tau, is_orth d Q -> fdet ROps d Q = 1 ->
+    fcost d pairs (mget ROps H) (fun i => mget ROps H i d) <= fcost d pairs Q tau.
+Proof.
+  exact (fun svd d ps pairs Hd Hps Hne Hc =>
+           conj (estimate_is_proper_rotation svd d ps pairs Hd Hc) (estimate_optimal svd d ps pairs Hd Hps Hne Hc)).
+Qed.
+Print Assumptions C04_kabsch_estimate_is_optimal_proper_rotation.
 
 (* exact data: if T_n = R0 S_n for an orthogonal R0, the estimate maps every centred source onto its target — no rank
    condition: coplanar and even collinear sets included *)
@@ -85,18 +200,118 @@ Theorem C04_kabsch_exact_recovery_rank_deficient :
 Proof. exact kabsch_exact_maps_flipped. Qed.
 Print Assumptions C04_kabsch_exact_recovery_rank_deficient.
 
-(* The three theorems above are stated on the function view of the centred pairs (S n i, T n i); the identification of the
-   model's list sums ([cross_cov], [mean_of]) with these finite sums, and the uniqueness of the rotation given its action
-   on a rank >= d-1 set (so that R = R0 itself, not only R s = R0 s on the data), are not proved: [_partial].  The model's
-   own rotation block is tied to [Re] here: *)
-Theorem C04_kabsch_model_rotation_is_V_diag_e_Ut_partial :
+(* (b) uniqueness: a proper rotation is determined by its action on a set of rank >= d-1
+   (d = 3: two vectors with a non-zero cross product; d = 2: one non-zero vector) *)
+Theorem C04_kabsch_proper_rotation_unique :
+  forall d N (S A B : nat -> nat -> R),
+  is_orth d A -> fdet ROps d A = 1 -> is_orth d B -> fdet ROps d B = 1 -> rank_ge_dm1 d N S ->
+  (forall n i, (n < N)%nat -> (i < d)%nat -> Rsum d (fun j => A i j * S n j) = Rsum d (fun j => B i j * S n j)) ->
+  forall i j, (i < d)%nat -> (j < d)%nat -> A i j = B i j.
+Proof. exact proper_unique_on_data. Qed.
+Print Assumptions C04_kabsch_proper_rotation_unique.
+
+(* exact data T_n = R0 S_n, R0 a proper rotation: the repaired code's matrix maps every centred source onto its target in
+   BOTH branches (no rank condition, no condition on sigma_last), and IS R0 when the sources have rank >= d-1 *)
+Theorem C04_kabsch_exact_recovery :
+  forall d N (S T U V : nat -> nat -> R) (sg : nat -> R), (d = 2 \/ d = 3)%nat ->
+  (forall a b, (a < d)%nat -> (b < d)%nat -> Rsum d (fun l => U l a * U l b) = delta a b) ->
+  (forall i j, (i < d)%nat -> (j < d)%nat -> Rsum d (fun a => U i a * U j a) = delta i j) ->
+  (forall a b, (a < d)%nat -> (b < d)%nat -> Rsum d (fun l => V l a * V l b) = delta a b) ->
+  (forall i j, (i < d)%nat -> (j < d)%nat -> Rsum d (fun a => V i a * V j a) = delta i j) ->
+  (forall a, (a < d)%nat -> 0 <= sg a) ->
+  (forall a b, (a <= b)%nat -> (b < d)%nat -> sg b <= sg a) ->
+  (forall j i, (j < d)%nat -> (i < d)%nat -> Ccov N S T j i = Cm d U V sg j i) ->
+  forall R0, is_orth d R0 -> fdet ROps d R0 = 1 ->
+  (forall n i, (n < N)%nat -> (i < d)%nat -> T n i = Rsum d (fun j => R0 i j * S n j)) ->
+  (forall n i, (n < N)%nat -> (i < d)%nat -> Rsum d (fun j => Re d U V (e_star d U V) i j * S n j) = T n i) /\
+  (rank_ge_dm1 d N S -> forall i j, (i < d)%nat -> (j < d)%nat -> Re d U V (e_star d U V) i j = R0 i j).
+Proof.
+  exact (fun d N S T U V sg Hd HUtU HUUt HVtV HVVt Hsg Hord HC R0 H0 Hd0 Hex =>
+           conj (kabsch_exact_maps_proper d N S T U V sg Hd HUtU HUUt HVtV HVVt Hsg Hord HC R0 H0 Hd0 Hex)
+                (fun Hr => kabsch_exact_recovery d N S T U V sg Hd HUtU HUUt HVtV HVVt Hsg Hord HC R0 H0 Hd0 Hr Hex)).
+Qed.
+Print Assumptions C04_kabsch_exact_recovery.
+
+(* the same for the output of [estimate_pairs]: if every listed target is R0 s + tau0 with R0 a proper rotation and the
+   sources are not all collinear (3D; coplanar sets included) / not all coincident (2D), the returned matrix has linear part
+   R0 and translation tau0, hence maps every source onto its target *)
+Theorem C04_kabsch_estimate_exact_recovery :
+  forall svd_of d ps (pairs : list (list R * list R)),
+  (d = 2 \/ d = 3)%nat -> (d <= ps)%nat -> pairs <> [] ->
+  let sm := mean_of ROps ps (map fst pairs) in let tm := mean_of ROps ps (map snd pairs) in
+  let cov := cross_cov ROps d pairs sm tm in
+  svd_contract d cov (svd_of d cov) ->
+  let H := estimate_pairs ROps svd_of true d ps pairs in
+  forall R0 tau0, is_orth d R0 -> fdet ROps d R0 = 1 ->
+  rank_ge_dm1 d (length pairs) (Sc ps pairs) ->
+  (forall n i, (n < length pairs)%nat -> (i < d)%nat ->
+     p_tgt pairs n i = Rsum d (fun j => R0 i j * p_src pairs n j) + tau0 i) ->
+  (forall i j, (i < d)%nat -> (j < d)%nat -> mget ROps H i j = R0 i j) /\
+  (forall i, (i < d)%nat -> mget ROps H i d = tau0 i) /\
+  (forall n i, (n < length pairs)%nat -> (i < d)%nat ->
+     Rsum d (fun j => mget ROps H i j * p_src pairs n j) + mget ROps H i d = p_tgt pairs n i).
+Proof.
+  exact (fun svd d ps pairs Hd Hps Hne Hc R0 tau0 H0 Hd0 Hr Hex =>
+           conj (proj1 (estimate_exact_recovery svd d ps pairs Hd Hps Hne Hc R0 tau0 H0 Hd0 Hr Hex))
+          (conj (proj2 (estimate_exact_recovery svd d ps pairs Hd Hps Hne Hc R0 tau0 H0 Hd0 Hr Hex))
+                (estimate_exact_maps svd d ps pairs Hd Hps Hne Hc R0 tau0 H0 Hd0 Hr Hex))).
+Qed.
+Print Assumptions C04_kabsch_estimate_exact_recovery.
+
+(* the model's rotation block, original and repaired code, is V diag(e) U^T with e all ones or the last one flipped *)
+Theorem C04_kabsch_model_rotation_is_V_diag_e_Ut :
   forall svd_of d cov fixed, svd_contract d cov (svd_of d cov) ->
   exists e, (e = (fun _ => 1) \/ e = elast d) /\
     let '(U, _, V) := svd_of d cov in
     forall i j, (i < d)%nat -> (j < d)%nat ->
       mget ROps (rotation_of ROps svd_of fixed d cov) i j = Re d (mget ROps U) (mget ROps V) e i j.
 Proof. exact (fun svd d cov fixed Hc => rotation_cases svd d cov Hc fixed). Qed.
-Print Assumptions C04_kabsch_model_rotation_is_V_diag_e_Ut_partial.
+Print Assumptions C04_kabsch_model_rotation_is_V_diag_e_Ut.
+
+(* the four [find] overloads: without preconditioning they are [estimate_pairs] on the aligned / listed pairs; with the same
+   scale c on both sets they are [estimate_pairs] on the scaled pairs followed by the division of the translation by c *)
+Theorem C04_kabsch_find_overloads_reduce_to_estimate_pairs :
+  forall svd_of fixed d ps c (src tgt : list (list R)),
+  (length src = length tgt ->
+     find_aligned ROps svd_of fixed d ps src tgt = Some (estimate_pairs ROps svd_of fixed d ps (combine src tgt)) /\
+     find_aligned_pre ROps svd_of fixed d ps c c src tgt
+     = Some (unscale_translation ROps d (estimate_pairs ROps svd_of fixed d ps (scale_pairs c (combine src tgt))) (precond_matrix00 ROps c))) /\
+  (forall corr prs, pairs_of_corr src tgt corr = Some prs ->
+     find_corr ROps svd_of fixed d ps src tgt corr = Some (estimate_pairs ROps svd_of fixed d ps prs) /\
+     find_corr_pre ROps svd_of fixed d ps c c src tgt corr
+     = Some (unscale_translation ROps d (estimate_pairs ROps svd_of fixed d ps (scale_pairs c prs)) (precond_matrix00 ROps c))).
+Proof.
+  exact (fun svd fixed d ps c src tgt =>
+    conj (fun Hl => conj (find_aligned_eq svd fixed d ps src tgt Hl) (find_aligned_pre_eq svd fixed d ps c src tgt Hl))
+         (fun corr prs Hp => conj (find_corr_eq svd fixed d ps src tgt corr prs Hp) (find_corr_pre_eq svd fixed d ps c src tgt corr prs Hp))).
+Qed.
+Print Assumptions C04_kabsch_find_overloads_reduce_to_estimate_pairs.
+
+(* isotropic preconditioning (scale c <> 0 on both sets): the matrix the preconditioned overloads return is a proper rigid
+   motion, least-squares optimal on the ORIGINAL pairs among all proper rigid motions, and on exact data of rank >= d-1 it is
+   (R0, tau0) — by [C04_kabsch_estimate_exact_recovery] the same matrix as without preconditioning.  The SVD contract is
+   assumed for the matrix actually handed to the oracle (the cross covariance of the scaled pairs). *)
+Theorem C04_kabsch_preconditioned_estimate_optimal_and_exact :
+  forall svd_of d ps (pairs : list (list R * list R)) c,
+  (d = 2 \/ d = 3)%nat -> (d <= ps)%nat -> pairs <> [] -> c <> 0 ->
+  let sp := scale_pairs c pairs in
+  let cov := cross_cov ROps d sp (mean_of ROps ps (map fst sp)) (mean_of ROps ps (map snd sp)) in
+  svd_contract d cov (svd_of d cov) ->
+  let H := unscale_translation ROps d (estimate_pairs ROps svd_of true d ps sp) (precond_matrix00 ROps c) in
+  (is_orth d (mget ROps H) /\ fdet ROps d (mget ROps H) = 1) /\
+  (forall Q tau, is_orth d Q -> fdet ROps d Q = 1 ->
+     fcost d pairs (mget ROps H) (fun i => mget ROps H i d) <= fcost d pairs Q tau) /\
+  (forall R0 tau0, is_orth d R0 -> fdet ROps d R0 = 1 -> rank_ge_dm1 d (length pairs) (Sc ps pairs) ->
+     (forall n i, (n < length pairs)%nat -> (i < d)%nat ->
+        p_tgt pairs n i = Rsum d (fun j => R0 i j * p_src pairs n j) + tau0 i) ->
+     (forall i j, (i < d)%nat -> (j < d)%nat -> mget ROps H i j = R0 i j) /\ (forall i, (i < d)%nat -> mget ROps H i d = tau0 i)).
+Proof.
+  exact (fun svd d ps pairs c Hd Hps Hne Hc0 Hc =>
+    conj (precond_estimate_is_proper_rotation svd d ps pairs c Hd Hc)
+   (conj (precond_estimate_optimal svd d ps pairs c Hd Hps Hne Hc0 Hc)
+         (precond_estimate_exact_recovery svd d ps pairs c Hd Hps Hne Hc0 Hc))).
+Qed.
+Print Assumptions C04_kabsch_preconditioned_estimate_optimal_and_exact.
 
 (* translation column: R s + (tm - R sm) = R (s - sm) + tm *)
 Theorem C04_kabsch_translation : forall d (Rm : nat -> nat -> R) (s sm tm : nat -> R) i,
@@ -114,3 +329,39 @@ Print Assumptions C04_kabsch_perm_invariant.
 (* ---- non-vacuity: the SVD contract is satisfiable (the coplanar witness) and its rotation is orthogonal ---- *)
 Example C04_contract_satisfiable : svd_contract 3 cop_cov (cop_svd 3 cop_cov) /\ is_orthogonal 3 (rotation_of ROps cop_svd true 3 cop_cov).
 Proof. split; [exact cop_contract|]. apply rotation_orthogonal. exact cop_contract. Qed.
+
+(* the noisy 3D instance of KabschExamples.v: six pairs whose cross covariance is diag(3,2,-1); an SVD within the contract
+   with det V det U = -1 and sigma_last = 1 > 0 (the best orthogonal fit is a reflection): all premises of
+   [C04_kabsch_estimate_is_optimal_proper_rotation] hold *)
+Example C04_noisy_reflection_case_satisfiable :
+  svd_contract 3 ex_cov (ex_svd 3 ex_cov) /\
+  (fdet ROps 3 (mget ROps [[1;0;0];[0;1;0];[0;0;-1]]) * fdet ROps 3 (mget ROps [[1;0;0];[0;1;0];[0;0;1]]) = -1 /\ 0 < vget ROps [3;2;1] 2) /\
+  forall Q tau, is_orth 3 Q -> fdet ROps 3 Q = 1 ->
+    fcost 3 ex_pairs (mget ROps (estimate_pairs ROps ex_svd true 3 3 ex_pairs))
+                     (fun i => mget ROps (estimate_pairs ROps ex_svd true 3 3 ex_pairs) i 3%nat) <= fcost 3 ex_pairs Q tau.
+Proof. exact (conj ex_contract (conj ex_is_reflection_case ex_estimate_optimal)). Qed.
+
+(* exact coplanar data (unit square in z = 0, quarter turn about z, translation (5,1,7)), an SVD within the contract whose
+   V U^T is a reflection: all premises of [C04_kabsch_estimate_exact_recovery] hold and the motion is recovered *)
+Example C04_exact_coplanar_recovery_satisfiable :
+  svd_contract 3 sq_cov (sq_svd 3 sq_cov) /\ (is_orth 3 sq_R0 /\ fdet ROps 3 sq_R0 = 1) /\
+  rank_ge_dm1 3 (length sq_pairs) (Sc 3 sq_pairs) /\
+  (forall n i, (n < length sq_pairs)%nat -> (i < 3)%nat ->
+     p_tgt sq_pairs n i = Rsum 3 (fun j => sq_R0 i j * p_src sq_pairs n j) + sq_tau0 i) /\
+  ((forall i j, (i < 3)%nat -> (j < 3)%nat -> mget ROps (estimate_pairs ROps sq_svd true 3 3 sq_pairs) i j = sq_R0 i j) /\
+   (forall i, (i < 3)%nat -> mget ROps (estimate_pairs ROps sq_svd true 3 3 sq_pairs) i 3%nat = sq_tau0 i)).
+Proof. exact (conj sq_contract (conj sq_R0_proper (conj sq_rank (conj sq_exact sq_estimate_recovers)))). Qed.
+
+(* 2D: the rank and exactness premises on three points under a quarter turn *)
+Example C04_exact_2d_satisfiable :
+  (is_orth 2 ex2_R0 /\ fdet ROps 2 ex2_R0 = 1) /\ rank_ge_dm1 2 (length ex2_pairs) (Sc 2 ex2_pairs) /\
+  (forall n i, (n < length ex2_pairs)%nat -> (i < 2)%nat ->
+     p_tgt ex2_pairs n i = Rsum 2 (fun j => ex2_R0 i j * p_src ex2_pairs n j) + 0).
+Proof. exact (conj ex2_R0_proper (conj ex2_rank ex2_exact)). Qed.
+
+(* preconditioning: the square scaled by 2 on both sets, an SVD of ITS cross covariance within the contract; the sets are
+   aligned lists, so [find_aligned_pre] is covered *)
+Example C04_preconditioned_satisfiable :
+  svd_contract 3 sq2_cov (sq2_svd 3 sq2_cov) /\ 2 <> 0 /\
+  (length (map fst sq_pairs) = length (map snd sq_pairs) /\ combine (map fst sq_pairs) (map snd sq_pairs) = sq_pairs).
+Proof. exact (conj sq2_contract (conj (not_eq_sym (Rlt_not_eq 0 2 Rlt_0_2)) sq_is_aligned)). Qed.
